@@ -93,6 +93,24 @@ CLAIMS["C19"] = dict(
     note="Proved: renderer. Oracle only: that errors of all stages carry path/source (with_source in lib.rs), and fault localisation. Context-building errors carry no path (<unknown>): exercised by C03/C13, not part of this check's mutants.",
     technique="Lean 4 proof over renderer model + byte-exact correspondence + fault-localisation oracle",
     design="§5 C19")
+CLAIMS["C09"] = dict(
+    text="Unbounded Lean soundness theorem no_undefined_read on a core statement language with the generate stage's name discipline (persistent environments: definitions visible to later statements of their block only) against the dynamic semantics of the emitted Python (function-level binding, every branch choice and iteration count): a block accepted in an environment whose names are bound never reaches a read of an unbound name, for all programs, nestings and execution paths; plus undefined_read_rejected, branch_defs_do_not_escape, shadow_latest. "
+         "The static model is tied to the code by a verdict-class correspondence on generated programs (functions, nested if/while/for, handle, shadowing) and single-point mutants inserting uses of arbitrary names at arbitrary positions, the model supplying the expected verdict.",
+    note="Modelled: variables, parameters, loop variables, handler binders, blocks. Not modelled (DESIGN.md, known findings): top-level functions/classes used before their definition, class-level fields read as bare names in methods, reassignment of a global inside a function, fields assigned in constructors. Inference failures of the checker on accepted-by-model programs are counted as inconclusive, not as agreement.",
+    technique="Lean 4 soundness proof (static discipline vs operational semantics) + verdict-class correspondence",
+    design="§5 C09")
+CLAIMS["C08"] = dict(
+    text="Unbounded Lean soundness theorem accepted_body_raises_declared on the same language with the generate stage's raises_caught discipline (handle arms cover the handled expression only; a body is checked under its declared classes; top level unchecked) against the dynamic semantics of try/except (first clause matching by class ancestry; a call may raise any subclass of what its callee declares): on every execution path an exception escaping an accepted function body is a subclass of a declared class; plus uncovered_raise_rejected, uncovered_call_rejected, arms_not_covered_by_own_handle, top_level_unchecked. "
+         "Tied to the code by the verdict-class correspondence on generated programs with exception hierarchies and mutants inserting raises/raising calls at arbitrary positions and dropping declared classes.",
+    note="Hypothesis FuelSuffices: the ancestor test's fuel is at least the height of the class table (shown for a concrete table). Not modelled: method calls (the checker ignores the raises of a method callee: known finding), that declared classes descend from Exception, generic exception classes.",
+    technique="Lean 4 soundness proof (checked exceptions vs operational semantics) + verdict-class correspondence",
+    design="§5 C08")
+CLAIMS["C07"] = dict(
+    text="Lean theorems on the same model's mutability discipline (the flags of the innermost visible definition decide): fin_reassign_rejected, undefined_reassign_rejected, mutable_reassign_ok, shadow_decides (after a re-definition the new flag decides whatever the older ones were), definition_scope / outer_flag_inside_loop (a definition inside a branch or loop does not change what the outer name is afterwards; an outer fin stays fin inside), for every environment and nesting. "
+         "Tied to the code by the verdict-class correspondence on generated programs and mutants inserting reassignments of arbitrary names (fin, mutable, shadowed, out-of-scope, undefined) at arbitrary positions.",
+    note="Modelled: plain definitions, parameters (fin or not), loop variables, shadowing, nesting; compound assignment is treated like := (as the checker does). Not modelled: tuple components, class fields and receivers (fin field through a mutable receiver is accepted by the checker: known finding), the two-map shadow bookkeeping of Environment/ConstrBuilder (only its lookup result).",
+    technique="Lean 4 proof over environment model + verdict-class correspondence with mutants",
+    design="§5 C07")
 NOT_YET = {}
 ALL = ["C%02d" % i for i in range(1, 21)]
 
